@@ -55,6 +55,24 @@ struct CfgWeightFloat : CfgCommon {
     using Loc = std::array<unsigned long, 2>;
 };
 
+// other shapes of the particle containers: fewer data values than result values, and extra data values
+struct CfgShape35 : CfgBaseMorton {
+    static constexpr long NbData = 3;
+    using Inner = WeightKernel<Real, Space, true>;
+    using Rhs = unsigned long;
+    static constexpr long NbRhs = 5;
+    using Mult = std::array<unsigned long, 2>;
+    using Loc = std::array<unsigned long, 2>;
+};
+struct CfgShape62 : CfgBaseMorton {
+    static constexpr long NbData = 6;
+    using Inner = WeightKernel<Real, Space>;
+    using Rhs = unsigned long;
+    static constexpr long NbRhs = 2;
+    using Mult = std::array<unsigned long, 2>;
+    using Loc = std::array<unsigned long, 2>;
+};
+
 #define REG(key, Cfg, Ex) static WorldRegistrar reg_##Cfg##_##Ex(key, [](const Scenario& s) { return std::unique_ptr<IWorld>(new World<Cfg, Ex>(s)); })
 REG("morton/weight/seq", CfgWeight, EX_SEQ);
 REG("morton/weight/omp", CfgWeight, EX_OMP);
@@ -64,6 +82,14 @@ REG("morton/weight_float/seq", CfgWeightFloat, EX_SEQ);
 REG("morton/weight_float/omp", CfgWeightFloat, EX_OMP);
 REG("morton/weight_float/seqtsm", CfgWeightFloat, EX_SEQ_TSM);
 REG("morton/weight_float/omptsm", CfgWeightFloat, EX_OMP_TSM);
+REG("morton/weight_s35/seq", CfgShape35, EX_SEQ);
+REG("morton/weight_s35/omp", CfgShape35, EX_OMP);
+REG("morton/weight_s35/seqtsm", CfgShape35, EX_SEQ_TSM);
+REG("morton/weight_s35/omptsm", CfgShape35, EX_OMP_TSM);
+REG("morton/weight_s62/seq", CfgShape62, EX_SEQ);
+REG("morton/weight_s62/omp", CfgShape62, EX_OMP);
+REG("morton/weight_s62/seqtsm", CfgShape62, EX_SEQ_TSM);
+REG("morton/weight_s62/omptsm", CfgShape62, EX_OMP_TSM);
 REG("morton/test/seq", CfgTest, EX_SEQ);
 REG("morton/test/omp", CfgTest, EX_OMP);
 REG("morton/test/seqtsm", CfgTest, EX_SEQ_TSM);
